@@ -21,6 +21,9 @@ type spiRec struct {
 	ctx       context.Context
 	cancelled bool // ctx.Err() != nil when the SPI call returns
 	where     string
+	// the first call that returned under a cancelled context, and whether that call failed
+	firstCancelledCall   int
+	failedWhenCancelled  bool
 }
 
 // interference: what the main loop may do while the worker is blocked inside an SPI call
@@ -37,6 +40,9 @@ func (wd *vWorld) interfere(rec *spiRec) func(ctx context.Context, where string)
 			wd.n.m.state.Contexts.Shutdown()
 		}
 		rec.cancelled = ctx.Err() != nil
+		if rec.cancelled && rec.firstCancelledCall == 0 {
+			rec.firstCancelledCall = rec.calls
+		}
 	}
 }
 
@@ -112,13 +118,19 @@ func C15_SPI() {
 		wd.n.mem.Interfere = func(ctx context.Context, where string) {
 			wd.n.mem.FailOrdered = rec.calls < fails
 			inner(ctx, where)
+			if rec.firstCancelledCall == rec.calls {
+				rec.failedWhenCancelled = wd.n.mem.FailOrdered
+			}
 		}
 		want, _ = wd.n.m.state.Contexts.For(state.NewHeightView(1, primitives.View(math.MaxUint64)))
 		s0 = wd.n.snap()
 		wd.n.start(nil, nil, true)
-		// the polling loop stops as soon as its context is cancelled
+		// the polling loop stops as soon as its context is cancelled: no further SPI call after the first one that
+		// returned (with an error) under a cancelled context
+		if rec.firstCancelledCall > 0 && rec.failedWhenCancelled {
+			env.Assert("C15.spi.committee_poll_stops", wd.n.mem.OrderedCalls == rec.firstCancelledCall)
+		}
 		if rec.cancelled && wd.n.mem.FailOrdered {
-			env.Assert("C15.spi.committee_poll_stops", wd.n.mem.OrderedCalls == rec.calls)
 			env.Assert("C15.spi.no_send_after_cancel", len(wd.n.comm.Out) == s0.out)
 			env.Reach("C15.committee_cancelled")
 		}
